@@ -89,10 +89,21 @@ func (o *orC06) onZK(e *ZKEvent) {
 			k := sw.key()
 			if o.cur != nil && o.cur.terminal == "" && o.cur.key != k {
 				// (4) a new request over a pending one
+				if prev := o.reqs[k]; prev != nil && prev.terminal == "overwritten" && byDaemon {
+					// the manager writes the request it is working on back over the one an external
+					// tool had put in its place: both are the tool's doing
+					o.cur.terminal = "overwritten"
+					prev.terminal = ""
+					prev.runCount = sw.RunCount
+					prev.lastStarted = sw.StartedAt
+					o.cur = prev
+					return
+				}
 				if e.Inc != "external" {
 					m.violate("C06", "overwrite_pending", "new-request-filed-over-pending-one", fmt.Sprintf("%s wrote request %s while %s was pending", e.Inc, k, o.cur.key))
 				} else {
-					o.cur.terminal = "aborted" // external tools are outside the quantifier
+					o.cur.terminal = "overwritten" // external tools are outside the quantifier
+					o.cur.openBy = ""
 				}
 			}
 			// a request that has ended (recorded, or aborted by the operator) does not come back
